@@ -78,6 +78,8 @@ def check_unit_norm(c, api, state, normalize, tags, k):
 
 
 class ExplicitEuler(ApiImmut):
+    freeze = True  # the oracle sees the arguments as they were at call entry; arrays / lists rewritten by the call are reported
+    input_prop = 'C09'
     def __init__(self):
         ApiImmut.__init__(self, 'ode.explicit_euler')
 
@@ -108,6 +110,8 @@ class ExplicitEuler(ApiImmut):
 
 class ImplicitScheme(ApiImmut):
     """implicit Euler (theta=1) and trapezoidal rule (theta=1/2)"""
+    freeze = True  # the oracle sees the arguments as they were at call entry; arrays / lists rewritten by the call are reported
+    input_prop = 'C09'
 
     def __init__(self, name, theta):
         ApiImmut.__init__(self, 'ode.' + name)
@@ -153,6 +157,8 @@ def hod_series(A, h, order):
 
 
 class Hod(ApiImmut):
+    freeze = True  # the oracle sees the arguments as they were at call entry; arrays / lists rewritten by the call are reported
+    input_prop = 'C09'
     def __init__(self):
         ApiImmut.__init__(self, 'ode.hod')
 
@@ -196,6 +202,8 @@ class Hod(ApiImmut):
 
 
 class Errors(ApiImmut):
+    freeze = True  # the oracle sees the arguments as they were at call entry; arrays / lists rewritten by the call are reported
+    input_prop = 'C09'
     def __init__(self, name, kind):
         ApiImmut.__init__(self, 'ode.' + name)
         self.kind = kind
@@ -226,6 +234,8 @@ class Errors(ApiImmut):
 
 
 class Adaptive(ApiImmut):
+    freeze = True  # the oracle sees the arguments as they were at call entry; arrays / lists rewritten by the call are reported
+    input_prop = 'C09'
     def __init__(self):
         ApiImmut.__init__(self, 'ode.adaptive_step_size')
 
@@ -324,6 +334,8 @@ def step_matrix(scheme, Ae, Ao, h):
 
 
 class Splitting(ApiImmut):
+    freeze = True  # the oracle sees the arguments as they were at call entry; arrays / lists rewritten by the call are reported
+    input_prop = 'C10'
     def __init__(self, scheme):
         ApiImmut.__init__(self, 'ode.%s_splitting' % scheme)
         self.scheme = scheme
@@ -428,6 +440,8 @@ class TdvpUpdate(probe.Contract):
 
 
 class Tdvp(ApiImmut):
+    freeze = True  # the oracle sees the arguments as they were at call entry; arrays / lists rewritten by the call are reported
+    input_prop = 'C11'
     def __init__(self, name):
         ApiImmut.__init__(self, 'ode.' + name)
         self.name = name
@@ -526,6 +540,8 @@ class Tdvp(ApiImmut):
 
 
 class Krylov(ApiImmut):
+    freeze = True  # the oracle sees the arguments as they were at call entry; arrays / lists rewritten by the call are reported
+    input_prop = 'C11'
     def __init__(self):
         ApiImmut.__init__(self, 'ode.krylov')
 
